@@ -251,7 +251,7 @@ theorem load_of_incr_save_with (arr : List Block → List Block) (harr : arr [] 
       refine ⟨off, g, o, hv, hoff, by rw [hall, hno2]; exact hog, hkept, ?_⟩
       rw [← hrest]
       exact hobj1 ((k, g), o) (Objects_mem_of_get d1.objects (k, g) o hog) _ _ _
-  obtain ⟨L, hL, l1, l2, l3, _, _, l6⟩ := objectPass_good arr harr out2 d1.version d1.binaryMark
+  obtain ⟨L, hL, l1, l2, l3, _, _, l6, _⟩ := objectPass_good arr harr out2 d1.version d1.binaryMark
     (table2.merge table1) (d2'.trailer.remove PREV) xs (d2.objects ++ d1.objects) hgood
   refine ⟨L, by rw [hload]; exact hL, l1, l2, l3, ?_⟩
   intro id
